@@ -9,6 +9,7 @@ mod io;
 mod server;
 
 mod gen_text;
+mod ops_codec;
 mod ops_doc;
 mod ops_lex;
 mod rng;
@@ -27,7 +28,7 @@ fn run_line(line: &str) -> String {
     }
     let (op, args) = (parts[0], &parts[1..]);
     let res = panic::catch_unwind(|| {
-        ops_lex::run(op, args).or_else(|| ops_doc::run(op, args))
+        ops_lex::run(op, args).or_else(|| ops_doc::run(op, args)).or_else(|| ops_codec::run(op, args))
     });
     match res {
         Ok(Some(s)) => s,
@@ -62,6 +63,7 @@ fn main() {
             match prop.as_str() {
                 "C06" => ops_lex::gen_c06(&mut rng, if thorough { 40000 } else { 3000 }, &mut out),
                 "C07" => ops_lex::gen_c07(&mut rng, if thorough { 60000 } else { 4000 }, thorough, &mut out),
+                "C19" => ops_codec::gen_c19(&mut rng, if thorough { 6000 } else { 500 }, &mut out),
                 "C08" => ops_doc::gen_c08(&mut rng, if thorough { 20000 } else { 1200 }, &mut out),
                 _ => {
                     eprintln!("unknown property {}", prop);
